@@ -66,7 +66,11 @@ _TYPES = {"int": int, "float": float, "str": str, "bool": bool, "list": list, "t
           "dict": dict, "set": set, "frozenset": frozenset, "bytes": bytes, "bytearray": bytearray}
 _EXC = {"ValueError": ValueError, "TypeError": TypeError, "KeyError": KeyError,
         "ZeroDivisionError": ZeroDivisionError, "OverflowError": OverflowError, "IndexError": IndexError,
-        "AttributeError": AttributeError, "Exception": Exception}
+        "AttributeError": AttributeError, "Exception": Exception, "SyntaxError": SyntaxError, "IndentationError": IndentationError,
+        "TabError": TabError, "RecursionError": RecursionError, "RuntimeError": RuntimeError, "MemoryError": MemoryError,
+        "LookupError": LookupError, "ArithmeticError": ArithmeticError, "UnicodeError": UnicodeError,
+        "UnicodeDecodeError": UnicodeDecodeError, "UnicodeEncodeError": UnicodeEncodeError, "StopIteration": StopIteration,
+        "NotImplementedError": NotImplementedError, "AssertionError": AssertionError, "OSError": OSError, "NameError": NameError}
 _STR_METHODS = {"isdigit", "strip", "lstrip", "rstrip", "lower", "upper", "startswith", "endswith",
                 "replace", "join", "split", "ljust", "rjust", "format", "capitalize", "isalpha",
                 "isidentifier", "count", "find", "title", "casefold", "swapcase", "zfill", "partition", "rpartition",
@@ -412,6 +416,14 @@ class Interp:
                 raise Unsupported("attribute store")
         elif isinstance(t, ast.Subscript):
             c = self.expr(t.value, env)
+            if isinstance(t.slice, ast.Slice):
+                if not isinstance(c, list):
+                    raise Unsupported("slice store")
+                lo = self.expr(t.slice.lower, env) if t.slice.lower else None
+                hi = self.expr(t.slice.upper, env) if t.slice.upper else None
+                stp = self.expr(t.slice.step, env) if t.slice.step else None
+                c[slice(lo, hi, stp)] = list(v)
+                return
             k = self.expr(t.slice, env)
             if isinstance(c, (dict, list)):
                 c[k] = v
@@ -419,6 +431,15 @@ class Interp:
                 raise Unsupported("subscript store")
         else:
             raise Unsupported("assign target")
+
+    def _opaque_call(self, fn, args, kwargs, node):
+        """an external pure function modelled by the checker: its Python exceptions are the exceptions the analysed code sees"""
+        try:
+            return fn(*args, **kwargs)
+        except (Raised, Unsupported):
+            raise
+        except (SyntaxError, ValueError, TypeError, IndexError, KeyError, OverflowError, ZeroDivisionError, RecursionError, MemoryError) as e:
+            raise Raised(type(e).__name__, "", node)
 
     @staticmethod
     def _truth(v):
@@ -593,7 +614,7 @@ class Interp:
                 raise Raised("AttributeError", n.attr, n)
             if base is ast and isinstance(getattr(ast, n.attr, None), type):
                 return getattr(ast, n.attr)
-            if isinstance(base, ast.AST) and n.attr in base._fields:
+            if isinstance(base, ast.AST) and (n.attr in base._fields or n.attr in getattr(base, "_attributes", ())):
                 # data fields of a syntax-tree value handed in by the checker (ast.Call.args, keyword.arg ...)
                 return getattr(base, n.attr)
             raise Unsupported(f"attribute {n.attr}")
@@ -713,7 +734,7 @@ class Interp:
         if isinstance(f, ast.Attribute):
             dn = lit_name(f)
             if dn in self.opaque:
-                return self.opaque[dn](*args, **kwargs)
+                return self._opaque_call(self.opaque[dn], args, kwargs, n)
             if dn and "." in dn:
                 root, attr = dn.split(".", 1)
                 imp = getattr(self.mod, "imports", {}).get(root)
@@ -762,13 +783,15 @@ class Interp:
                 fn_ = self.mod.funcs[f"{base.__dl_class__}.{m}"]
                 static = any(isinstance(d, ast.Name) and d.id == "staticmethod" for d in fn_.decorator_list)
                 return self._call(fn_, ([] if static else [base]) + list(args), kwargs)
+            if base is ast and isinstance(getattr(ast, m, None), type) and issubclass(getattr(ast, m), ast.AST):
+                return getattr(ast, m)(*args, **kwargs)          # a syntax-tree value built by the analysed code (pure data)
             if type(base) in (int, bool) and m in ("bit_length", "bit_count", "conjugate", "is_integer") or type(base) is float and m in ("is_integer", "hex", "as_integer_ratio"):
                 return getattr(base, m)(*args)
             raise Unsupported(f"method {m} on {type(base).__name__}")
         if isinstance(f, ast.Name):
             name = f.id
             if name in self.opaque and name not in env:
-                return self.opaque[name](*args, **kwargs)
+                return self._opaque_call(self.opaque[name], args, kwargs, n)
             if name == "getattr" and len(args) in (2, 3) and isinstance(args[1], str) and not args[1].startswith("__"):
                 if isinstance(args[0], Synth):
                     if hasattr(args[0], args[1]):
